@@ -26,7 +26,7 @@ RULE = ("daily and billing models (parameter-built for every split layout and sh
         "contained at least one row without temperature or without usage.")
 ASSUMPTIONS = ["'has a value' means finite (NaN and +-inf are missing)", "column sums skip missing values, as the documentation's df.sum() does"]
 REQUIRED_REACH = {"post.predict_frame": 60, "clause.rowwise_mask": 40, "clause.sum_identity": 60, "rows.temperature_missing_with_usage": 100,
-                  "rows.usage_missing": 50, "agg.monthly": 6, "agg.bimonthly": 6, "history.after_temperature_only": 12, "frame.usage_supplied_but_no_complete_day": 2, "frame.gas_month_with_zero_usage": 1, "clause.rowwise_mask_aggregated": 12}
+                  "rows.usage_missing": 50, "agg.monthly": 6, "agg.bimonthly": 6, "history.after_temperature_only": 12, "frame.usage_supplied_but_no_complete_day": 2, "frame.gas_month_with_zero_usage": 1, "clause.rowwise_mask_aggregated": 12, "model.imported_from_a_2_0_document": 6}
 
 VIOL = []
 CUR = {}
@@ -173,6 +173,10 @@ def gen_cases(tier, seed):
         cases.append(dict(kind="param", family="daily" if (i + i // len(PATTERNS)) % 3 else "billing", split=splits[i % len(splits)], pattern=PATTERNS[i % len(PATTERNS)],
                           tz=["America/Chicago", "UTC", "Australia/Sydney", "Europe/London", "Asia/Kolkata"][i % 5], n=i, with_observed=bool(i % 9 != 8),
                           prior=PRIORS[(i // 3) % len(PRIORS)]))
+    ni = 8 if q else 72
+    for i in range(ni):
+        cases.append(dict(kind="imported", family="daily", kind_2_0=B.KINDS_2_0[i % 4], pattern=PATTERNS[(i * 7 + i // 4) % len(PATTERNS)], tz="UTC", n=5000 + i,
+                          with_observed=bool(i % 5 != 4), prior=PRIORS[i % len(PRIORS)][:1] if i % 3 == 0 else []))
     nf = 4 if q else 40
     for i in range(nf):
         cases.append(dict(kind="fitted", family=["daily", "billing", "legacy"][i % 3], pattern=PATTERNS[(i * 5) % len(PATTERNS)],
@@ -203,6 +207,12 @@ def run_case(spec):
                                   f_unc=float(rng.uniform(0.5, 3)))
             doc = B.make_doc(subs, st, tz=tz)
             m = (em.BillingModel if fam == "billing" else em.DailyModel).from_dict(doc)
+        elif spec["kind"] == "imported":
+            # the second way a daily model comes into being: a legacy (2.0) document (its uncertainty is infinite by construction)
+            import json as _json
+            doc2 = B.draw_2_0_doc(rng, spec["kind_2_0"])
+            m = em.DailyModel.from_2_0_dict(doc2) if spec["n"] % 2 else em.DailyModel.from_2_0_json(_json.dumps(doc2))
+            I.reach("model.imported_from_a_2_0_document")
         elif fam == "billing":
             m, _, _ = FT.fit_billing(rng, tz=tz)
         else:
